@@ -134,6 +134,9 @@ def run_program(ck, rng, meshes, grids, prog, centred, lead, routes, stats, mode
     n = {"n_face": g.n_face, "n_node": g.n_node, "n_edge": g.n_edge}[centred]
     shape = tuple(l for _, l in lead) + (n,)
     data = (np.arange(int(np.prod(shape)), dtype=float).reshape(shape) % 17) + 1.0
+    # the property does not depend on what the values are: a quarter of the programs run on another dtype
+    dt = rng.choice(["float64"] * 6 + ["float32", "int64", "int32", "int16"])
+    data = data.astype(dt)
     dims = [d for d, _ in lead] + [centred]
     coords = {d: np.arange(l) for d, l in lead}
     a = ux.UxDataArray(data.copy(), dims=dims, uxgrid=g, name="v", coords=coords)
@@ -314,7 +317,10 @@ def run_program(ck, rng, meshes, grids, prog, centred, lead, routes, stats, mode
         a = r
         mops.append(mop)
         mexpect.append((True, (cur_fam, cur_gen), dc.dims(a)))
-    if mops:
+    if mops and dt == "float64":
+        # (which xarray code path an operation takes depends on the dtype — e.g. idxmax keeps the subclass on integer data and
+        # loses it on floats — and the routes fed to the model are measured on float64: other dtypes are judged by the
+        # implementation-side clauses only)
         sizes = [[f.n_node, f.n_edge, f.n_face] for f in fams]
         model_lines.append(sx([sizes, dims0, mops]))
         keep.append((case, mexpect))
